@@ -29,7 +29,7 @@ ASSUMPTIONS = [
     "django mode + `only`: echo of the owner's id inside fill content is not predicted",
 ]
 BOUNDS = {"quick": {"programs": 12800, "depths": [1, 2, 50, 200], "loop_depths": [1, 50, 700], "widths": [1, 300, 1500]}, "thorough": {"programs": 200000, "depths": [1, 2, 3, 50, 200, 500, 1000, 2000], "loop_depths": [1, 50, 700, 2000], "widths": [1, 300, 1500, 5000, 20000]}}
-CFG = {"elems": True, "idecho": True, "errors": False, "isfilled": False, "max_nodes": 4}
+CFG = {"elems": True, "idecho": True, "errors": False, "isfilled": False, "max_nodes": 4, "cssvars": True}
 
 
 _TAG_RE = re.compile(r"<([A-Za-z][A-Za-z0-9]*)((?:\s+[^\s=<>/]+(?:=\"[^\"]*\")?)*)\s*/?>")
